@@ -171,16 +171,85 @@ def _c3(cls: ClassInfo) -> List[ClassInfo]:
     return [cls] + merge([_c3(b) for b in cls.bases] + [list(cls.bases)])
 
 
+def _parse(rel: str, src: str):
+    try:
+        return ast.parse(src, filename=rel)
+    except SyntaxError as e:  # a tree that does not compile is not analysable
+        raise AnalysisError(f"cannot parse {rel}: {e}")
+
+
+def collect_signatures(trees) -> Dict[str, Optional[List[str]]]:
+    """callable name -> positional parameter names (without self) when every definition of that name in the package
+    (method of any class, module-level function, class constructor) has the same positional signature; else absent"""
+    sigs: Dict[str, set] = {}
+
+    def add(name, fn, drop_first):
+        a = fn.args
+        deco = {(d.id if isinstance(d, ast.Name) else getattr(d, "attr", "")) for d in fn.decorator_list}
+        if a.vararg or a.posonlyargs or deco & {"property", "classmethod"}:
+            sigs.setdefault(name, set()).add(None)
+            return
+        ps = [x.arg for x in a.args]
+        if drop_first and "staticmethod" not in deco:
+            ps = ps[1:]
+        sigs.setdefault(name, set()).add(tuple(ps))
+
+    for tree in trees.values():
+        for n in ast.walk(tree):
+            if isinstance(n, ast.ClassDef):
+                has_init = False
+                for m in n.body:
+                    if isinstance(m, ast.FunctionDef):
+                        add(m.name, m, True)
+                        if m.name == "__init__":
+                            has_init = True
+                            add("<class>" + n.name, m, True)
+                if not has_init:
+                    sigs.setdefault("<class>" + n.name, set()).add(None)
+        for n in tree.body:
+            if isinstance(n, ast.FunctionDef):
+                add(n.name, n, False)
+    return {k: list(next(iter(v))) for k, v in sigs.items() if len(v) == 1 and None not in v}
+
+
+class _KeywordsToPositional(ast.NodeTransformer):
+    """canonical call form: f(x=a, y=b) -> f(a, b) when the callee name has one positional signature in the package and
+    the keywords continue the positional arguments without a gap.  The rules read arguments by position; both spellings
+    of a call are therefore decided identically."""
+
+    def __init__(self, sigs):
+        self.sigs = sigs
+
+    def visit_Call(self, node):
+        self.generic_visit(node)
+        if not node.keywords or any(k.arg is None for k in node.keywords) or any(isinstance(a, ast.Starred) for a in node.args):
+            return node
+        f = node.func
+        sig = None
+        if isinstance(f, ast.Attribute):
+            sig = self.sigs.get(f.attr)
+        elif isinstance(f, ast.Name):
+            sig = self.sigs.get("<class>" + f.id) or self.sigs.get(f.id)
+        if not sig:
+            return node
+        kw = {k.arg: k for k in node.keywords}
+        pos = list(node.args)
+        while len(pos) < len(sig) and sig[len(pos)] in kw:
+            pos.append(kw.pop(sig[len(pos)]).value)
+        if len(pos) == len(node.args):
+            return node
+        node.args = pos
+        node.keywords = [k for k in node.keywords if k.arg in kw]
+        return node
+
+
 class Module:
-    def __init__(self, rel: str, src: str):
+    def __init__(self, rel: str, src: str, tree=None):
         self.rel = rel  # path relative to the package dir, e.g. 'backends/base.py'
         self.src = src
         self.lines = src.splitlines()
         self.digest = hashlib.sha256(src.encode()).hexdigest()
-        try:
-            self.tree = ast.parse(src, filename=rel)
-        except SyntaxError as e:  # a tree that does not compile is not analysable
-            raise AnalysisError(f"cannot parse {rel}: {e}")
+        self.tree = tree if tree is not None else _parse(rel, src)
         parts = rel[:-3].split("/")
         if parts[-1] == "__init__":
             parts = parts[:-1]
@@ -303,6 +372,7 @@ class Tree:
         if not os.path.isdir(self.pkgdir):
             raise AnalysisError(f"package directory not found: {self.pkgdir}")
         self.modules: Dict[str, Module] = {}
+        srcs, trees = {}, {}
         for dp, dn, fn in os.walk(self.pkgdir):
             dn.sort()
             for f in sorted(fn):
@@ -310,11 +380,32 @@ class Tree:
                     full = os.path.join(dp, f)
                     rel = os.path.relpath(full, self.pkgdir)
                     with open(full, encoding="utf-8") as fh:
-                        self.modules[rel] = Module(rel, fh.read())
+                        srcs[rel] = fh.read()
+                    trees[rel] = _parse(rel, srcs[rel])
+        self.signatures = collect_signatures(trees)
+        norm = _KeywordsToPositional(self.signatures)
+        for rel in srcs:
+            self.modules[rel] = Module(rel, srcs[rel], tree=norm.visit(trees[rel]))
         self.by_name: Dict[str, Module] = {m.name: m for m in self.modules.values()}
         self._resolve_classes()
 
     # ---- lookup helpers ---------------------------------------------------
+    def arg_of(self, call: ast.Call, pname: str):
+        """the argument a call binds to parameter `pname`: the keyword of that name, or - calls are kept in canonical
+        positional form when the callee's signature is unique in the package - the positional argument at its index"""
+        for k in call.keywords:
+            if k.arg == pname:
+                return k.value
+        f = call.func
+        sig = None
+        if isinstance(f, ast.Attribute):
+            sig = self.signatures.get(f.attr)
+        elif isinstance(f, ast.Name):
+            sig = self.signatures.get("<class>" + f.id) or self.signatures.get(f.id)
+        if sig and pname in sig and sig.index(pname) < len(call.args):
+            return call.args[sig.index(pname)]
+        return None
+
     def module(self, rel: str) -> Module:
         m = self.modules.get(rel)
         if m is None:
